@@ -77,17 +77,19 @@ RECIPES = {
     },
     "C10": {
         "level": "model_checking",
-        "mc": {"quick": [("MC_Ident", "MC_Ident_q"), ("MC_Paths", "MC_Paths_q", 8)],
-               "thorough": [("MC_Ident", "MC_Ident_t"), ("MC_Paths", "MC_Paths_t", 10)]},
-        "families": {"quick": [("ident", 1500, 2), ("locate", 40, 2), ("elf", 5, 2)],
-                     "thorough": [("ident", 10000, 8), ("locate", 300, 4), ("elf", 40, 4)]},
+        "mc": {"quick": [("MC_Ident", "MC_Ident_q"), ("MC_Paths", "MC_Paths_q", 8), ("MC_SymVer", "MC_SymVer_q", 8), ("MC_Decode", "MC_Decode_q")],
+               "thorough": [("MC_Ident", "MC_Ident_t"), ("MC_Paths", "MC_Paths_t", 10), ("MC_SymVer", "MC_SymVer_t", 12), ("MC_Decode", "MC_Decode_t")]},
+        "families": {"quick": [("ident", 1500, 2), ("locate", 40, 2), ("elf", 5, 2), ("symver", 40, 2), ("table", 300, 1), ("notes", 300, 1)],
+                     "thorough": [("ident", 10000, 8), ("locate", 300, 4), ("elf", 40, 4), ("symver", 300, 4), ("table", 3000, 2), ("notes", 3000, 2)]},
         "reasons": ("value", "panic"),
-        "tags": ["ident", "tail"] + Q_ALL + SQ_ALL,
+        "tags": ["ident", "tail", "symver", "symver_req", "symver_def", "verdef_iter", "verneed_iter", "verdaux_iter", "vernaux_iter",
+                 "parse_at", "notes", "iter", "tbl", "tbl_get", "tbl_iter", "tbl_into_iter", "tbl_walk"] + Q_ALL + SQ_ALL,
         "rule": "A: all 256 EI_DATA / EI_CLASS / EI_VERSION values, all single-byte and 4^4 (thorough 6^4) multi-byte magic "
                 "corruptions, two-defect idents, short buffers x 4 byte-order specs; error kind and payload are compared when "
                 "the ident has exactly one defect; B: generated objects (incl. extended numbering, both orders) opened with Any, the matching "
                 "fixed spec, the other fixed spec and Native, full query sweep: every answer is judged against the same semantics, so "
-                "Any and the matching fixed spec must agree on everything",
+                "Any and the matching fixed spec must agree on everything; the same below the file level: version tables, structures, "
+                "tables and notes decoded with the run-time (Any) and the compile-time order values (direction A: MC_SymVer, MC_Decode)",
         "assumptions": COMMON_ASSUME,
     },
     "C14": {
@@ -110,13 +112,14 @@ RECIPES = {
     },
     "C11": {
         "level": "model_checking",
-        "mc": {"quick": [("MC_Hash", "MC_Gnu_q", 10)], "thorough": [("MC_Hash", "MC_Gnu_t", 14)]},
+        "mc": {"quick": [("MC_Hash", "MC_Gnu_q", 10), ("MC_Hash", "MC_GnuB", 8)], "thorough": [("MC_Hash", "MC_Gnu_t", 14), ("MC_Hash", "MC_GnuB", 8)]},
         "families": {"quick": [("gnuhash", 120, 4)], "thorough": [("gnuhash", 1000, 12)]},
         "reasons": ("value", "panic"),
         "rule": "A: .gnu.hash sections built in TLA+ from the format description for every set of <= 2 (thorough 3) names of a "
                 "9-name pool (empty, non-UTF-8, djb2-colliding pair, bit-0 pair, long) x nbucket x bloom words x shift x symoffset x "
                 "class/order: TLC checks well-formedness, completeness for every pool name (present and absent) and soundness, "
-                "and emits each table with 11 lookups for replay; "
+                "and emits each table with 11 lookups for replay; the same for a pool of names whose hashes are 0 (twice), 1, 2^32-1 "
+                "and 2^32-2 (chain words 0, 1 and all-ones), in one to three buckets; "
                 "B: harness-built .gnu.hash tables (1..60 symbols, nbucket 1..n, bloom 1..64 words, shift 0..31, symoffset 1..3, "
                 "both classes/orders, djb2-colliding and same-bucket absent names, duplicates, empty and non-UTF-8 names) and "
                 "corrupted variants; TLC itself checks the table is well formed before demanding completeness; soundness always",
@@ -124,25 +127,34 @@ RECIPES = {
     },
     "C12": {
         "level": "model_checking",
-        "mc": {"quick": [("MC_Links", "MC_Links_q"), ("MC_Hash", "MC_Sysv_q", 8)], "thorough": [("MC_Links", "MC_Links_t", 12), ("MC_Hash", "MC_Sysv_t", 12)]},
+        "mc": {"quick": [("MC_Links", "MC_Links_q"), ("MC_Hash", "MC_Sysv_q", 8), ("MC_Hash", "MC_SysvB", 6)],
+               "thorough": [("MC_Links", "MC_Links_t", 12), ("MC_Hash", "MC_Sysv_t", 12), ("MC_Hash", "MC_SysvB", 6)]},
         "families": {"quick": [("sysvhash", 120, 4)], "thorough": [("sysvhash", 1000, 12)]},
         "reasons": ("value", "panic"),
         "rule": "A: .hash sections built in TLA+ for every set of <= 3 (thorough 4) pool names x nbucket 1..3 x class/order "
-                "(completeness, soundness, replay) and every bucket/chain function over 3 (4) symbols (MC_Links); "
+                "(completeness, soundness, replay), the same for a pool of names on which (h << 4) + c carries out of 32 bits (and "
+                "just does not), and every bucket/chain function over 3 (4) symbols (MC_Links); "
                 "B: harness-built .hash tables and corrupted variants, as C11; hash function vs the gABI elf_hash text",
         "assumptions": COMMON_ASSUME,
     },
     "C13": {
         "level": "model_checking",
-        "mc": {"quick": [("MC_SymVer", "MC_SymVer_q", 8)], "thorough": [("MC_SymVer", "MC_SymVer_t", 12)]},
-        "families": {"quick": [("symver", 100, 4)], "thorough": [("symver", 800, 12)]},
+        "mc": {"quick": [("MC_SymVer", "MC_SymVer_q", 8), ("MC_VerFile", "MC_VerFile_q", 10)],
+               "thorough": [("MC_SymVer", "MC_SymVer_t", 12), ("MC_VerFile", "MC_VerFile_t", 14)]},
+        "families": {"quick": [("symver", 100, 4), ("elf", 8, 2), ("stream", 5, 2)],
+                     "thorough": [("symver", 800, 12), ("elf", 60, 4), ("stream", 40, 4)]},
         "reasons": ("value", "panic"),
+        "tags": ["symver", "symver_req", "symver_def", "verdef_iter", "verneed_iter", "verdaux_iter", "vernaux_iter",
+                 "q:symbol_version_table", "sq:symbol_version_table"],
         "rule": "A: .gnu.version/_r/_d encoded in TLA+ for every model with <= 2 verneed files x <= 2 aux, <= 2 verdefs x <= 2 names, "
                 "contiguous and records-then-auxes layouts, versym holding every kind of index (local, global, each listed one, an "
                 "unlisted one; plain and hidden): TLC checks the operational queries against the declarative ReqOk/DefOk and emits "
-                "each object with all queries for replay; B: version models (0..12 verneed x 0..6 aux, 0..12 verdef x 1..3 names, versym mixing 0,1,defined,needed,unknown, "
+                "each object with all queries for replay; MC_VerFile: the same models inside an object built from the ABI (.dynsym, "
+                ".gnu.version, _r, _d; requirements and definitions naming different string tables; both section orders), through "
+                "ElfBytes::symbol_version_table; B: version models (0..12 verneed x 0..6 aux, 0..12 verdef x 1..3 names, versym mixing 0,1,defined,needed,unknown, "
                 "hidden), contiguous / records-then-auxes / gapped layouts, both classes/orders, via SymbolVersionTable::new; "
-                "every symbol index 0..len+1 and huge; result compared with the operational model and the ground-truth model",
+                "every symbol index 0..len+1 and huge; result compared with the operational model and the ground-truth model; "
+                "generated objects through ElfBytes and ElfStream (definitions sometimes with a string table of their own)",
         "assumptions": COMMON_ASSUME,
     },
     "C16": {
@@ -246,7 +258,7 @@ RECIPES = {
         "tags": Q_ALL,
         "rule": "A: a template object built in TLA+ from the ABI (7 sections: names, .dynstr, .dynsym, .dynamic, note, text; "
                 "PT_DYNAMIC, PT_NOTE; tables early), EVERY prefix length 0..len (quick: ELF32 MSB, 498 prefixes; thorough: all four "
-                "encodings) x 21 queries: TLC checks PrefixRel on the spec and emits every prefix as a session replayed on the crate; "
+                "encodings, plus an ET_CORE variant with a PT_LOAD segment) x 22 queries: TLC checks PrefixRel on the spec and emits every prefix as a session replayed on the crate; "
                 "B: objects laid out with tables early; every structure boundary +-1 (thorough: every prefix length) and appended "
                 "suffixes; the full query sweep on each prefix; TLC checks (i) the answer equals the spec's semantics on the prefix "
                 "and (ii) the spec's answer on the prefix is an error or equals its answer on the complete file (PrefixRel)",
